@@ -46,17 +46,23 @@ inductive Iter where
   | rep (c : Term)                           -- `itertools.repeat(c)`
   | cycle (cur all : List Term)              -- `itertools.cycle(all)`, `cur` = rest of the current round
   | chain (a b : Iter)                       -- `itertools.chain(a, b)`
-  | mapc (f : Name) (pre post : List Term) (a : Iter)
-                                             -- `map(lambda x: f(*pre, x, *post), a)` / `(f(*pre, x, *post) for x in a)`
+  | mapc (g : Bool) (f : Name) (pre post : List Term) (a : Iter)
+                                             -- `g = false`: the map object `map(lambda x: f(*pre, x, *post), a)`;
+                                             -- `g = true` : the generator expression `(f(*pre, x, *post) for x in a)`.
+                                             --   Same items as long as no element operation raises; an exception
+                                             --   leaves a map object usable and FINISHES a generator (`Iter.stepE`)
   | map2 (f : Name) (a b : Iter)             -- `map(f, a, b)`
+  | dead (a : Iter)                          -- a generator finished by an exception; `a` = its source, frozen
   deriving Repr, Inhabited
 
 /-- `map(f, a)` -/
-abbrev Iter.map1 (f : Name) (a : Iter) : Iter := .mapc f [] [] a
+abbrev Iter.map1 (f : Name) (a : Iter) : Iter := .mapc false f [] [] a
+/-- `(f(x) for x in a)` -/
+abbrev Iter.gen1 (f : Name) (a : Iter) : Iter := .mapc true f [] [] a
 /-- `map(lambda x: f(c, x), a)` -/
-abbrev Iter.mapL (f : Name) (c : Term) (a : Iter) : Iter := .mapc f [c] [] a
+abbrev Iter.mapL (f : Name) (c : Term) (a : Iter) : Iter := .mapc false f [c] [] a
 /-- `map(lambda x: f(x, c), a)` -/
-abbrev Iter.mapR (f : Name) (a : Iter) (c : Term) : Iter := .mapc f [] [c] a
+abbrev Iter.mapR (f : Name) (a : Iter) (c : Term) : Iter := .mapc false f [] [c] a
 
 /-- `next(it)`: the item (or `none` = StopIteration) and the iterator state afterwards.
     `map(f, a, b)` asks `a` first and does not touch `b` when `a` has ended (CPython `map_next`);
@@ -72,10 +78,10 @@ def Iter.step : Iter → Option Term × Iter
     match a.step with
     | (some x, a') => (some x, .chain a' b)
     | (none, _) => b.step          -- `chain` drops an exhausted iterator for good
-  | .mapc f pre post a =>
+  | .mapc g f pre post a =>
     match a.step with
-    | (some x, a') => (some (.app f (pre ++ x :: post)), .mapc f pre post a')
-    | (none, a') => (none, .mapc f pre post a')
+    | (some x, a') => (some (.app f (pre ++ x :: post)), .mapc g f pre post a')
+    | (none, a') => (none, .mapc g f pre post a')
   | .map2 f a b =>
     match a.step with
     | (none, a') => (none, .map2 f a' b)
@@ -83,6 +89,7 @@ def Iter.step : Iter → Option Term × Iter
       match b.step with
       | (none, b') => (none, .map2 f a' b')
       | (some y, b') => (some (.app f [x, y]), .map2 f a' b')
+  | .dead a => (none, .dead a)
 
 /-- `Stream.take(n)` / `list(islice(it, n))`: at most `n` items, stops at the first StopIteration.
     Returns the items and the iterator state left behind (for the read counts). -/
@@ -109,7 +116,7 @@ def Iter.stepTrace : Iter → List Term
     match a.step with
     | (some _, _) => a.stepTrace
     | (none, _) => a.stepTrace ++ b.stepTrace
-  | .mapc f pre post a =>
+  | .mapc _ f pre post a =>
     match a.step with
     | (some x, _) => a.stepTrace ++ [.app f (pre ++ x :: post)]
     | (none, _) => a.stepTrace
@@ -120,6 +127,7 @@ def Iter.stepTrace : Iter → List Term
       match b.step with
       | (none, _) => a.stepTrace ++ b.stepTrace
       | (some y, _) => a.stepTrace ++ b.stepTrace ++ [.app f [x, y]]
+  | .dead _ => []
 
 /-- the computations of every `next` of `take(n)` (the last entry is the failing `next`, if any) -/
 def Iter.runT : Nat → Iter → List (List Term)
@@ -135,8 +143,9 @@ def Iter.unread : Iter → List (Nat × Nat)
   | .rep _ => []
   | .cycle _ _ => []
   | .chain a b => a.unread ++ b.unread
-  | .mapc _ _ _ a => a.unread
+  | .mapc _ _ _ _ a => a.unread
   | .map2 _ a b => a.unread ++ b.unread
+  | .dead a => a.unread
 
 /-! ## The operator table: `OpMethod` and the metaclass -/
 
@@ -286,8 +295,10 @@ inductive Py where
   | stream2 (a b : Py)                   -- `Stream(a, b)`
   | un (dname : Name) (self : Py)        -- `self.__neg__()`
   | bin (dname : Name) (self other : Py) -- `self.__add__(other)`, `self.__radd__(other)`, …
-  | meth (label : Name) (self : Py)      -- `self.map(f)`, `abs(self)`, `self.attr`, `self(*args)`:
-                                         --   all are `Stream(f(a) for a in self._data)` for an `f` named by the label
+  | meth (g : Bool) (label : Name) (self : Py)
+                                         -- `g = false`: `self.map(f)`, `abs(self)` = `xmap(f, self._data)`;
+                                         -- `g = true` : `self.attr`, `self(*args)` = `Stream(f(a) for a in self._data)`
+                                         --   (a generator expression), for an `f` named by the label
   | append (self other : Py)             -- `self.append(other)`
   deriving Repr, Inhabited
 
@@ -316,10 +327,10 @@ def evalPy (tbl : List (Name × Dunder)) : Py → Except Err Val
     let vo ← evalPy tbl o
     let it ← asStream vs
     callDunder tbl d it (some vo)
-  | .meth l s => do
+  | .meth g l s => do
     let vs ← evalPy tbl s
     let it ← asStream vs
-    pure (.iterable true (.map1 l it))
+    pure (.iterable true (.mapc g l [] [] it))
   | .append s o => do
     let vs ← evalPy tbl s
     let vo ← evalPy tbl o
@@ -442,10 +453,10 @@ def ECall.isPositional (c : ECall) : Bool :=
 def ECall.data (c : ECall) : Iter :=
   if c.isPositional then
     let p := c.pos.getD 0
-    .mapc c.f (c.args.take p) (c.args.drop (p + 1) ++ kwFlat c.kwargs) c.arg.iter
+    .mapc true c.f (c.args.take p) (c.args.drop (p + 1) ++ kwFlat c.kwargs) c.arg.iter
   else
     let s := kwSplit c.dname c.kwargs
-    .mapc c.f (c.args ++ s.1) s.2 c.arg.iter
+    .mapc true c.f (c.args ++ s.1) s.2 c.arg.iter
 
 /-- `func(*args, **kwargs)`: the placeholder slot holds the object itself -/
 def ECall.plainCall (c : ECall) : Term :=
